@@ -48,7 +48,7 @@ def _case(fail_kinds, managers):
             {
                 "shape": K.st_shape(kinds=("pipeline", "scatter", "diamond", "loop"), max_width=5),
                 "plan": K.st_plan(max_points=3, max_times=7, kinds=fail_kinds, min_points=1),
-                "limit": st.integers(1, 5),
+                "limit": st.sampled_from([1, 2, 2, 3, 3, 4, 5]),
                 "manager": st.sampled_from(managers),
                 "schedule": K.st_schedule(),
                 "wait_order": st.sampled_from([0, 0, 1, 2, 3]),
